@@ -519,8 +519,21 @@ def handler_ok(o):
 def gen_push(rng):
     nl = rng.randint(1, 4)
     layers = list(dict.fromkeys(rnd_content(rng, rng.randint(1, 9)) for _ in range(nl)))
+    if rng.random() < 0.3:
+        # an unusual but legal manifest: a layer of size 0 (the empty blob) alone, first, in the middle, last, or twice
+        where = rng.choice(["alone", "first", "middle", "last", "twice"])
+        if where == "alone":
+            layers = [b""]
+        elif where == "first":
+            layers = [b""] + layers
+        elif where == "last":
+            layers = layers + [b""]
+        elif where == "middle":
+            layers = layers[: len(layers) // 2] + [b""] + layers[len(layers) // 2:]
+        else:
+            layers = [b""] + layers + [b""]
     post, put = {}, {}
-    for c in layers:
+    for c in dict.fromkeys(layers):
         r = rng.random()
         if r < 0.2:
             post[sha(c)] = {"status": 200, "location": False}      # already at the registry
@@ -541,6 +554,17 @@ def gen_push_legacy(rng):
     config = rnd_content(rng, rng.randint(1, 5)) if rng.random() < 0.5 else None
     if config in layers:
         config = None
+    if rng.random() < 0.3:
+        # a layer of size 0 (the empty blob) alone, first, in the middle or last
+        where = rng.choice(["alone", "first", "middle", "last"])
+        if where == "alone":
+            layers = [b""]
+        elif where == "first":
+            layers = [b""] + layers
+        elif where == "last":
+            layers = layers + [b""]
+        else:
+            layers = layers[: len(layers) // 2] + [b""] + layers[len(layers) // 2:]
     head, post = {}, {}
     for c in layers + ([config] if config else []):
         r = rng.random()
@@ -632,7 +656,17 @@ def conc_push_cases(rng, quick):
             if quick and tmpl == "reject-commit-once" and rng.random() < 0.5:
                 continue
             S = b"" if tmpl.startswith("empty") else rnd_content(rng, rng.randint(1, 9))
-            extra = lambda: [rnd_content(rng, rng.randint(1, 6))] if rng.random() < 0.7 else []
+            used = {S}
+
+            def extra():
+                # a layer of the model's own (never the shared one again, never one of another model)
+                if rng.random() >= 0.7:
+                    return []
+                while True:
+                    x = rnd_content(rng, rng.randint(2, 6))
+                    if x not in used:
+                        used.add(x)
+                        return [x]
             nm = 3 if tmpl == "hold-commit-3" else (1 if tmpl == "empty-single" else 2)
             models = []
             for i in range(nm):
@@ -658,7 +692,7 @@ def conc_push_cases(rng, quick):
                 if tmpl == "reject-commit-once":
                     script += [["release", "commit:" + d, 500], ["arrive", "commit:" + d], ["sleep", 100]]
                 script += [["release", "commit:" + d, 201]]
-            script += [["join", i] for i in range(nm)]
+            script += [["open"]] + [["join", i] for i in range(nm)]
             out.append({"kind": "push-legacy-conc", "models": models, "gates": gates, "head": {}, "script": script, "tmpl": tmpl, "klass": "push-legacy-conc"})
     return out
 
@@ -667,7 +701,7 @@ def conc_push_view(c, o):
     """per push: (events [(layer index, accepted)], manifest sent?, result) read off the global request log: a layer of a push
     is accepted iff, before that push's manifest PUT (or its end), the registry answered its HEAD with 200 or a finalising
     PUT of that digest with 2xx"""
-    log = o.get("log", [])
+    log = (o.get("log") or [])
     views = []
     for i, m in enumerate(c["models"]):
         name = m["name"]
@@ -699,11 +733,11 @@ def monitor_push_conc(c, o):
         if v["manifest"] and not v["all_accepted"]:
             out.append(({"kind": "push-legacy-conc", "class": "manifest-before-layers", "tmpl": c.get("tmpl")},
                         "concurrent pushes (%s): push %d (%s) sent its manifest before every one of its layers was accepted by the registry: %s" % (
-                            c.get("tmpl"), i, v["name"], [l[:60] for l in o.get("log", [])])))
+                            c.get("tmpl"), i, v["name"], [l[:60] for l in (o.get("log") or [])])))
         if v["result"] == "" and not (v["manifest"] and v["all_accepted"]):
             out.append(({"kind": "push-legacy-conc", "class": "push-ok-without-accepted-layers", "tmpl": c.get("tmpl")},
                         "concurrent pushes (%s): push %d (%s) reported success although a layer of it was never accepted or its manifest was not sent" % (c.get("tmpl"), i, v["name"])))
-    if any(l.startswith("timeout ") for l in o.get("log", [])):
+    if any(l.startswith("timeout ") for l in (o.get("log") or [])):
         pass
     return out
 
@@ -747,7 +781,7 @@ def legacy_events(c, o):
     ix = {sha(b): i for i, b in enumerate(order)}
     seen, verdict = [], {}
     man_at = None
-    for li, l in enumerate(o.get("log", [])):
+    for li, l in enumerate((o.get("log") or [])):
         w = l.split(" ")
         if w[0] in ("head", "post", "patch", "commit") and w[1] in ix and w[1] not in seen:
             seen.append(w[1])
@@ -778,7 +812,7 @@ def push_events(c, o):
     ix = {sha(b): i for i, b in enumerate(layers)}
     accepted = {}
     events = []
-    for l in o.get("log", []):
+    for l in (o.get("log") or []):
         w = l.split(" ")
         if w[0] == "post":
             e = c["post"].get(w[1], {"status": 200, "location": True})
@@ -810,6 +844,10 @@ def render_push(c, o):
     accepted, events = push_events(c, o)
     res = cq_list(["(%s, %s)" % (cq_nat(e[1]), cq_bool(e[2])) for e in events if e[0] == "blob"], "(nat * bool)%type")
     obs = cq_list(["(EvBlob %s %s)" % (cq_nat(e[1]), cq_bool(e[2])) if e[0] == "blob" else "EvManifest" for e in events], "pev")
+    if any(h == "" for h in c["layers"]):
+        # Registry.Push checks first that every layer is in the cache with its size; DiskCache.Get reports the empty blob
+        # file as absent (cf. C08-link-empty-blob), so a manifest with a zero-size layer is refused before any request
+        return "(trace_eqb (@nil pev) %s && %s)%%bool" % (obs, cq_bool(o.get("err") == "notexist"))
     return "chk_push_new %s %s" % (res, obs)
 
 
@@ -835,7 +873,7 @@ def monitor_pull(c, o):
         for k, s in enumerate(snaps):
             a = c["attempts"][k] if k < len(c["attempts"]) else None
             lastok = k == len(snaps) - 1 and handler_ok(o)
-            oa = {"resolve": o.get("resolve"), "log": [l for l in o.get("log", []) if l.startswith("%d " % (k + 1))]} if lastok else "err"
+            oa = {"resolve": o.get("resolve"), "log": [l for l in (o.get("log") or []) if l.startswith("%d " % (k + 1))]} if lastok else "err"
             out += check_attempt(c, a, prev, s, lastok, k, oa)
         if handler_ok(o) and not snaps:
             out.append(({"kind": "pull", "class": "success-without-manifest"}, "the handler reported success without a single attempt"))
@@ -1106,7 +1144,7 @@ def shrink(ctx, binp, c, sig):
 
 def nontrivial(c, o):
     if c["kind"] in ("push", "push-legacy", "push-legacy-conc"):
-        return len(o.get("log", [])) >= 2
+        return len((o.get("log") or [])) >= 2
     if c["handler"]:
         return o.get("attempts_made", 0) >= 1 and any(s["blobs"] for s in o.get("snaps", []))
     return any(a["snap"]["blobs"] for a in o.get("attempts", []))
@@ -1177,11 +1215,11 @@ def run(ctx, only_cases=None):
                 return
             scases += batch
             sobs += lines
-        ctx.extra["slow_legacy_push"] = [{"commit_fail": sc["commit_fail"], "log_tail": so.get("log", [])[-4:], "err": so.get("err")}
+        ctx.extra["slow_legacy_push"] = [{"commit_fail": sc["commit_fail"], "log_tail": (so.get("log") or [])[-4:], "err": so.get("err")}
                                          for sc, so in zip(scases, sobs) if sc["kind"] == "push-legacy"]
         ctx.extra["retry_runs"] = [{"klass": sc["klass"], "scripted_attempts": len(sc["attempts"]), "made": so.get("attempts_made"), "handler_ok": handler_ok(so)}
                                    for sc, so in zip(scases, sobs) if sc["kind"] == "pull"]
-        ctx.extra["concurrent_legacy_pushes"] = [{"tmpl": sc.get("tmpl"), "results": so.get("results"), "timeouts": [l for l in so.get("log", []) if l.startswith("timeout")]}
+        ctx.extra["concurrent_legacy_pushes"] = [{"tmpl": sc.get("tmpl"), "results": so.get("results"), "timeouts": [l for l in (so.get("log") or []) if l.startswith("timeout")]}
                                                  for sc, so in zip(scases, sobs) if sc["kind"] == "push-legacy-conc"]
         process(ctx, binp, scases, sobs, seen, "slow", rerun=False)
 
